@@ -5,6 +5,7 @@ import (
 	"flag"
 	"fmt"
 	"os"
+	"path/filepath"
 	"sort"
 	"strings"
 	"testing"
@@ -41,6 +42,15 @@ func init() {
 	register(clientScn{})
 	register(lifecycleScn{})
 	register(poolprogScn{})
+	register(deepnestScn{})
+}
+
+// fatalScenario marks scenarios whose failure mode is the death of the process (a fatal runtime error
+// that no recover can contain): the driver leaves a pending replay file around each run.
+type fatalScenario interface{ Fatal() bool }
+
+func pendingPath(dir, scenario string, seed uint64) string {
+	return filepath.Join(dir, fmt.Sprintf("pending-%s-%d.json", scenario, seed))
 }
 
 // RunOpts are per-execution options that do not belong to the plan.
@@ -252,7 +262,19 @@ func TestSim(t *testing.T) {
 		seed := *fSeed0 + uint64(i)
 		plan := scn.Generate(simrt.NewRng(seed, simrt.StreamGen), *fTier)
 		o := RunOpts{KeepLog: *fVerbose, CheckGoid: *fCheckG > 0 && i%*fCheckG == 0}
+		pending := ""
+		if f, ok := scn.(fatalScenario); ok && f.Fatal() && *fReplayD != "" {
+			pb, _ := json.Marshal(plan)
+			rb, _ := json.MarshalIndent(Replay{Property: scn.Property(), Scenario: scn.Name(), Tier: *fTier, Seed: seed, OrigSeed: seed,
+				Rule: scn.Property() + "-process-died", Detail: "the process died while this run was executing (no verdict could be written)", Plan: pb}, "", " ")
+			pending = pendingPath(*fReplayD, scn.Name(), seed)
+			os.MkdirAll(*fReplayD, 0o755)
+			os.WriteFile(pending, rb, 0o644)
+		}
 		rep := scn.Run(t, seed, plan, o)
+		if pending != "" {
+			os.Remove(pending)
+		}
 		if *fRaceLog != "" {
 			if kept, ignored := newRaceReports(); len(kept) > 0 && len(rep.Violations) == 0 && rep.Inconclusive == "" {
 				rep.violate("C18-data-race", "the race detector reports unsynchronised accesses inside the library on this simulated schedule (%d report(s), %d in simulator/harness code ignored):\n%s", len(kept), ignored, trunc(kept[0], 3500))
